@@ -201,7 +201,7 @@ def run_c19(prop, tier):
             if time.time() > t_end:
                 return None         # deadline: reported as a cap, never as a pass
             res = []
-            runs = [(t, TOOL_ARGS[t]) for t in tnames]
+            runs = [(t, TOOL_ARGS[t] if not (t == "ovniemu" and name == "bd2") else ["-l", "-b"]) for t in tnames]
             if label.split(":")[0] in DEBUG_OPS:
                 runs.append(("ovniemu", ["-l", "-d"]))
             for (t, targs) in runs:
@@ -222,7 +222,7 @@ def run_c19(prop, tier):
                     for l in err.split("\n"):
                         if "ERROR: AddressSanitizer" in l or "runtime error" in l or l.strip().startswith("#0") or l.strip().startswith("#1 "):
                             san += l.strip()[:160] + " | "
-                res.append((t if targs == TOOL_ARGS[t] else t + " " + " ".join(targs), rc, san[:500], err[-200:] if rc not in (0, 1) else ""))
+                res.append((t if targs == TOOL_ARGS[t] else t + " " + " ".join(targs[1:]), rc, san[:500], err[-200:] if rc not in (0, 1) else ""))
             return res
         kinds = {}
         outcomes = set()
